@@ -640,7 +640,11 @@ func c01Self(c *Ctx) {
 			}
 			r := p.Rets[0]
 			be := ev.LoadField(p.State, r, "BaseExecutor")
-			if r.Op != "alloc" || be == nil || be.Op != "alloc" {
+			// fresh: allocated here, possibly as parts of one fresh block that holds both (allocated together)
+			freshObj := func(t *T) bool {
+				return t != nil && (t.Op == "alloc" || (t.Op == "faddr" && isFreshRoot(t)))
+			}
+			if !freshObj(r) || !freshObj(be) || r == be {
 				ok = false
 				c.Fail(name, pos, "ToExecutor must return a freshly allocated executor with a fresh BaseExecutor (one policy executor per execution)", pathTrace(ev, p))
 				continue
@@ -704,7 +708,8 @@ func c01Outermost(c *Ctx) {
 		ok := ev.Err == nil && len(paths) > 0
 		for _, p := range paths {
 			inner := eventsWhere(p, func(e *Event) bool { return isCall(e, "executeSync") || isCall(e, "executeAsync") })
-			if len(inner) != 1 || inner[0].Args[0].Op != "closure" {
+			direct := len(inner) == 1 && inner[0].Args[0] == userFn // the user function itself: the identity wrapper elided
+			if len(inner) != 1 || (inner[0].Args[0].Op != "closure" && !direct) {
 				ok = false
 				c.Fail(c.fn(fn), c.P.FuncPos(fn), "entry point must funnel into executeSync/executeAsync exactly once with a wrapper closure", pathTrace(ev, p))
 				continue
@@ -717,8 +722,20 @@ func c01Outermost(c *Ctx) {
 			}
 			// the wrapper closure calls the user fn exactly once and returns its values
 			cl := inner[0].Args[0]
-			ex := ev.TS.intern(&T{Op: "param", Aux: "exec", Typ: cl.Fn.Params[0].Type()})
-			for _, q := range ev.CallTerm(p.State, cl, []*T{ex}) {
+			var wrapperPaths []*Path
+			var ex *T
+			if direct {
+				// only an entry point whose user function already has the shape execute expects can pass it through
+				isGetW := w == "GetWithExecution" || w == "GetWithExecutionAsync"
+				if !isGetW || !withExec {
+					ok = false
+					c.Fail(c.fn(fn), c.P.FuncPos(fn), "the user function is passed on unwrapped by an entry point whose function has a different shape", pathTrace(ev, p))
+				}
+			} else {
+				ex = ev.TS.intern(&T{Op: "param", Aux: "exec", Typ: cl.Fn.Params[0].Type()})
+				wrapperPaths = ev.CallTerm(p.State, cl, []*T{ex})
+			}
+			for _, q := range wrapperPaths {
 				calls := eventsWhere(q, func(e *Event) bool { return isDynCall(e, userFn) && e.Idx >= len(p.Events()) })
 				isGet := w == "Get" || w == "GetWithExecution" || w == "GetAsync" || w == "GetWithExecutionAsync"
 				good := len(calls) == 1 && q.Exit == ExitReturn && len(q.Rets) == 2
